@@ -3,12 +3,13 @@
 # certain rights in this software.
 """Substitute a map alias directly into a circuit."""
 
-from jaqalpaq.error import JaqalError
+from jaqalpaq.error import JaqalError, nesting_guard
 from jaqalpaq.core.algorithm.visitor import Visitor
 from jaqalpaq.core import circuitbuilder
 from jaqalpaq.core.parameter import AnnotatedValue
 
 
+@nesting_guard
 def fill_in_map(circuit):
     """Substitute qubits from registers where aliases exist. Note this
     will fail if any macros use an alias as an argument.
